@@ -40,6 +40,8 @@ func runC10(c *Ctx) {
 	checkPartialAnywhere(c, "R10f")
 	c.Rule("R10g", ruleTextPendingLowerBound, 3)
 	checkPendingLowerBound(c, "R10g")
+	c.Rule("R10h", "index provenance in the migrate package (same rule as C11/R11f): an index obtained by searching slice B is used to index or slice B only, never a different slice", 6)
+	checkIndexProvenance(c, "R10h")
 
 	// R10d
 	if fi := c.Func("R10d", pCmdmig, "", "NewEntRevisions"); fi != nil {
